@@ -5,7 +5,7 @@ import json
 import random
 from concurrent.futures import ProcessPoolExecutor
 
-from . import flow, tlaval, tlc
+from . import flow, serial_rec, tlaval, tlc
 
 
 def cfg(nlines, ncorr, inv, live=True):
@@ -22,7 +22,8 @@ def _job(args):
     from . import serial_rec
     lines, corrupt, holds = args[:3]
     pauses = args[3] if len(args) > 3 else ()
-    return serial_rec.run_job(lines, corrupt=corrupt, holds={int(k): v for k, v in holds.items()}, pauses=pauses)
+    instant = bool(args[4]) if len(args) > 4 else False
+    return serial_rec.run_job(lines, corrupt=corrupt, holds={int(k): v for k, v in holds.items()}, pauses=pauses, instant=instant)
 
 
 def run_jobs(specs, par=12):
@@ -248,8 +249,16 @@ class P(flow.Plan):
                     holds[j] = rng.randint(0, k + 4)
             # beyond the listed quantifier: pause() / resume() in the middle of the job (SenderPauseImpl)
             pauses = sorted(rng.sample(range(1, k + 2), rng.choice([1, 1, 2]))) if i % 4 == 0 and k >= 2 else []
-            specs.append((lines, corrupt, holds, pauses))
-            inputs.append({"lines": lines, "corrupt": corrupt, "holds": holds, "pauses": pauses})
+            # zero latency (added after seed C15c): the reply is read and handled by the reader thread before write() returns to
+            # the print thread; half of these runs corrupt the first transmission of the LAST job line (nothing follows to heal it)
+            instant = i % 5 == 1
+            if instant:
+                holds = {}
+                nexe = len([x for x in lines if serial_rec.strip_job_line(x)])
+                if rng.random() < 0.5:
+                    corrupt = sorted(set([c for c in corrupt if c < nexe and c != 0] + [nexe]))
+            specs.append((lines, corrupt, holds, pauses, instant))
+            inputs.append({"lines": lines, "corrupt": corrupt, "holds": holds, "pauses": pauses, "instant": instant})
         traces = run_jobs(specs)
         for t in traces:
             t["meta"]["driver"] = "random"
@@ -257,7 +266,7 @@ class P(flow.Plan):
 
     def replay(self, payload):
         inp = payload["input"]
-        return run_jobs([(inp["lines"], inp["corrupt"], inp["holds"], inp.get("pauses", []))], par=1), [inp]
+        return run_jobs([(inp["lines"], inp["corrupt"], inp["holds"], inp.get("pauses", []), inp.get("instant", False))], par=1), [inp]
 
     def sample(self, t):
         return {"meta": t["meta"], "raw_job": t["raw"], "ev": [{"k": e["k"], "text": bytes(e["text"]).decode("ascii", "replace"), "bad": e["bad"]} for e in t["ev"][:14]]}
